@@ -724,8 +724,18 @@ theorem asNode_good {h : Heap} {g : Ref} {ns b s e ci ch} (name : Name)
   simp [NewOk]
   romega
 
-theorem addNodes_good {h : Heap} {g : Ref} {ns b s e ci ch} (more : List Ref) (hne : more ≠ [])
+theorem addNodes_good {h : Heap} {g : Ref} {ns b s e ci ch} (more : List Ref)
     (hg : h.objs[g]? = some (.graph ns b s e ci ch)) : Good h (addNodes h g more) := by
+  by_cases hne : more = []
+  · subst hne
+    apply Good.of_shape
+    simp only [addNodes, hg, if_true]
+    simp [shallowCopy_shape hg]
+    refine ⟨_, _, 0, rfl, by simp, ?_⟩
+    intro hI
+    have hns := graph_nodes_lt hI hg
+    simp [NewOk, inherit hg]
+    exact hns
   simp only [addNodes, hg, hne, if_false]
   have hall : ∀ X : Heap, X.objs.length = h.objs.length → Inv X →
       (∃ ci' ch', X.objs[g]? = some (.graph ns b s e ci' ch')) →
@@ -926,9 +936,7 @@ theorem Op.run_spec (h : Heap) (op : Op) :
     | some o =>
       cases o with
       | graph ns b s e ci ch =>
-        by_cases hne : more = []
-        · right; simp only [Heap.addNodes, hg, hne, if_true]; exact triv g
-        · left; exact addNodes_good more hne hg
+        left; exact addNodes_good more hg
       | _ => right; simp only [Heap.addNodes, hg]; exact triv g
   | asNode g nm =>
     simp only [Op.run, Op.recv]
@@ -996,9 +1004,8 @@ theorem Op.run_good {h : Heap} {op : Op} (hd : op.derives h = true) : Good h (op
     obtain ⟨ns, b, s, e, ci, ch, hg⟩ := isGraph_iff.mp (by simpa [Op.derives] using hd)
     exact withEntrypoint_good ks hg
   | addNodes g more =>
-    simp only [Op.derives, Bool.and_eq_true, Bool.not_eq_true', List.isEmpty_eq_false_iff] at hd
-    obtain ⟨ns, b, s, e, ci, ch, hg⟩ := isGraph_iff.mp hd.1
-    exact addNodes_good more hd.2 hg
+    obtain ⟨ns, b, s, e, ci, ch, hg⟩ := isGraph_iff.mp (by simpa [Op.derives] using hd)
+    exact addNodes_good more hg
   | asNode g nm =>
     obtain ⟨ns, b, s, e, ci, ch, hg⟩ := isGraph_iff.mp (by simpa [Op.derives] using hd)
     exact asNode_good nm hg
